@@ -586,11 +586,17 @@ def nodeHead (c : Ctx) (top : Bool) (ms : List (Str × Json)) (n : Nat) : Option
         (match m.2 with | .null => true | _ => false) ||
         (match classifyKey c' m.1 with | .ignored => true | _ => false)))
 
-/-- items of a list must be present; in processing mode 1.0 they must not be lists themselves -/
+/-- items of a list must be present (lists from which expansion would drop an item are outside the
+    fragment); in processing mode 1.0 they must not be lists themselves -/
 def listItemOK (c : Ctx) : Json → Bool
   | .null => false
   | .arr _ => false
-  | .obj ms => c.mode11 || !hasKey kList ms
+  | .obj ms =>
+    (c.mode11 || !hasKey kList ms) &&
+    -- a value object whose value is `null` expands to `null` and would be dropped from the list
+    (match getKey kValue ms with
+     | some .null => false
+     | _ => true)
   | _ => true
 
 /-- a one-element list whose item produced `r` with subject `fresh n` -/
